@@ -4,6 +4,7 @@ CONSTANTS
   NoSearchSet = {0, 1}
   ViaFileSet = {0, 1}
   AliasSet = {0, 1}
+  EnvSet <- EnvNone
   Names = {"n1", "N1", "n1.test", "n1.a.b", "n1.test.", "n1."}
   Apis = {"search", "gai4", "gai0"}
   Outcomes = {"ok", "nodata", "nx", "servfail"}
